@@ -341,6 +341,9 @@ func runHTTPClient(t *testing.T, c *HTTPCase, trace bool) *common.Outcome {
 		if c.Pool > 0 {
 			conf.MessageHandlerPoolSize = c.Pool
 		}
+		if trackBody != nil {
+			conf.BodyAllocator = trackBody
+		}
 		eng := nbhttp.NewEngine(conf)
 		if err := eng.Start(); err != nil {
 			o.Infra = "engine start: " + err.Error()
